@@ -179,7 +179,8 @@ def verify_function(program, registry, spec, opts=None, work=None, expand_to=Non
             except Exception:
                 pass
         except EngineError as e:
-            res.error = "engine: " + str(e) + "\n" + traceback.format_exc()[-1500:]
+            # a value or operation the engine has no model for: the function has left the verifier's reach (not a crash)
+            res.out_of_reach = "unmodelled operation: " + str(e)
         except RecursionError:
             res.out_of_reach = "recursion depth"
         except Exception as e:  # engine crash: never a verdict
@@ -344,7 +345,7 @@ def _check_exceptional(I, ctx, c, base, exc):
     allowed = c._raises_only
     if allowed is not None:
         ok = any(exc.isinstance_of(a) or short == a for a in allowed)
-        ctx.prove(f"{base}/raises.only", ok, detail=f"{short} escapes; allowed: {sorted(allowed)}")
+        ctx.prove(f"{base}/raises.only", ok, detail=f"{short} escapes (raised at {getattr(exc, 'origin', '?')}); allowed: {sorted(allowed)}")
         if not ok:
             return
     if matching:
